@@ -17,6 +17,7 @@ SUBS = [
     dict(name="sanity", quick=dict(cases=250000, shards=2), thorough=dict(cases=2500000, shards=2)),
     dict(name="generate", quick=dict(cases=22000, shards=2), thorough=dict(cases=220000, shards=2)),
     dict(name="osslfault", quick=dict(cases=60, shards=2), thorough=dict(cases=1500, shards=4)),
+    dict(name="osslfresh", fork=True, quick=dict(cases=1200, shards=2), thorough=dict(cases=20000, shards=4)),
 ]
 
 
